@@ -27,6 +27,17 @@ def _answer(req):
             return ["ok", mg.smiles, round(float(mg.weight), 6)]
         except Exception as exc:  # noqa: BLE001
             return ["raise", type(exc).__name__]
+    if op == "ens":
+        try:
+            from .probe import system_generator
+            out = []
+            for mg in system_generator(obj, np.random.default_rng(req["k"])):
+                out.append([mg.smiles, round(float(mg.weight), 6)])
+                if len(out) > 400:
+                    break
+            return ["ok", out]
+        except Exception as exc:  # noqa: BLE001
+            return ["raise", type(exc).__name__]
     if op == "ff":
         try:
             mg = obj.generate(rng=np.random.default_rng(req["k"]))
